@@ -395,7 +395,10 @@ def harness_build(features=(), profile="release", timeout=3000):
     src = os.path.join(TARGET, "release" if profile == "release" else "debug", "vh")
     tag = "-".join(["vh", profile] + sorted(features))
     dst = os.path.join(BIN, tag)
-    shutil.copy2(src, dst)
+    # atomic replace: another check may be executing the previous copy right now
+    tmp = f"{dst}.{os.getpid()}.tmp"
+    shutil.copy2(src, tmp)
+    os.replace(tmp, dst)
     return dst, (out + err)[-2000:]
 
 
